@@ -21,6 +21,8 @@ import traceback
 from collections import Counter
 
 ROOT = os.path.dirname(os.path.dirname(os.path.abspath(__file__)))
+# runs against a scratch copy of the repository (VERIF_REPO) must not overwrite the evidence of the real tree
+OUT = os.environ.get("VERIF_OUT_DIR") or (ROOT if os.environ.get("VERIF_REPO", "/repo") == "/repo" else "/tmp/verif-scratch-out")
 WORKERS = int(os.environ.get("VERIF_WORKERS", "16"))
 MAX_VIOL_PER_SIG = 5
 
@@ -196,14 +198,14 @@ def finish(ctx: Ctx) -> int:
             unknown.append(v)
     for sig, (k, _) in sorted(known_hit.items()):
         print(f"KNOWN-FINDING: property={ctx.prop} {k['signature']}: {k['what']}")
-    os.makedirs(os.path.join(ROOT, "replays"), exist_ok=True)
+    os.makedirs(os.path.join(OUT, "replays"), exist_ok=True)
     reported = set()
     for v in unknown:
         if v["signature"] in reported:
             continue
         reported.add(v["signature"])
         rid = hashlib.blake2b(json.dumps(v, sort_keys=True).encode(), digest_size=6).hexdigest()
-        path = os.path.join(ROOT, "replays", f"{ctx.prop}-{rid}.json")
+        path = os.path.join(OUT, "replays", f"{ctx.prop}-{rid}.json")
         with open(path, "w") as f:
             json.dump({"property": ctx.prop, **v}, f, indent=1, sort_keys=True)
         print(f"VIOLATION property={ctx.prop} replay={path}")
@@ -252,8 +254,8 @@ def write_evidence(ctx: Ctx, n_viol: int, known_hit: dict):
         "wall_s": round(time.time() - ctx.t0, 3),
         "violations": n_viol,
     }
-    os.makedirs(os.path.join(ROOT, "evidence"), exist_ok=True)
-    path = os.path.join(ROOT, "evidence", f"{ctx.prop}.json")
+    os.makedirs(os.path.join(OUT, "evidence"), exist_ok=True)
+    path = os.path.join(OUT, "evidence", f"{ctx.prop}.json")
     tmp = path + ".tmp"
     with open(tmp, "w") as f:
         json.dump(ev, f, indent=1, sort_keys=True)
